@@ -294,6 +294,51 @@ def all_orders_case(ctx):
         yield {"species": list(perm), "reactions": rx, "params": params, "ic": {}}
 
 
+def matrices_after_simulations(ctx):
+    """the matrices and the derivative are those of the reaction list also after the model has been simulated, by every
+    simulator in turn (a model with delayed parts, species declared in several orders)."""
+    import warnings
+    from bioscrape.simulator import py_simulate_model, ModelCSimInterface, SafeModelCSimInterface
+    from bioscrape.random import py_seed_random
+    T = np.linspace(0, 0.5, 4)
+    pt = {"x": {"A": Fraction(3), "B": Fraction(2), "C": Fraction(5, 2), "D": Fraction(1), "E": Fraction(0)}, "V": Fraction(1), "t": Fraction(1, 4)}
+    runs = (("deterministic", dict(stochastic=False)), ("stochastic", dict(stochastic=True)), ("delay", dict(stochastic=True, delay=True)),
+            ("delay + volume", dict(stochastic=True, delay=True, volume=2.0)), ("volume", dict(stochastic=True, volume=2.0)), ("safe volume", dict(stochastic=True, volume=1.5, safe=True)))
+    for k, spec in enumerate(all_orders_case(ctx)):
+        if k % 6:
+            continue
+        spec = dict(spec, ic={"A": 3, "B": 2, "C": 1, "D": 2})
+        M = build_model(spec)
+        sl = M.get_species_list()
+        Uo = count_matrix(sl, spec["reactions"], "reactants", "products")
+        Do = count_matrix(sl, spec["reactions"], "dreactants", "dproducts")
+        rates = np.array([rate_oracle(r, pt["x"], spec["params"], pt["t"]) for r in spec["reactions"]])
+        want = (Uo + Do) @ rates
+        done = []
+        for name, kw in runs:
+            case = {"spec": spec, "scenario": "matrices after simulations", "simulated_so_far": done + [name]}
+            ctx.begin_case(case)
+            py_seed_random(5)
+            with warnings.catch_warnings():
+                warnings.simplefilter("ignore")
+                py_simulate_model(T.copy(), Model=M, return_dataframe=False, **kw)
+            done.append(name)
+            ctx.evaluated()
+            U, D = np.array(M.py_get_update_array()), np.array(M.py_get_delay_update_array())
+            dxs = []
+            for cls in (ModelCSimInterface, SafeModelCSimInterface):
+                I = cls(M)
+                I.py_prep_deterministic_simulation()
+                dx = np.zeros(len(sl))
+                I.py_calculate_deterministic_derivative(state_vector(M, pt["x"]), dx, float(pt["t"]))
+                dxs.append(dx)
+            if not (np.array_equal(U, Uo) and np.array_equal(D, Do)) or any(np.max(np.abs(dx - want)) > 1e-9 * (1 + np.max(np.abs(want))) for dx in dxs):
+                ctx.violation("stoich/after-simulation", "after the simulations %s the model reports the immediate matrix %s and delayed matrix %s (reaction list: %s, %s); derivative %s, "
+                              "sum over reactions of (S+S_d) x rate %s" % (done, U.tolist(), D.tolist(), Uo.tolist(), Do.tolist(), dxs[0].tolist(), want.tolist()), case)
+                return
+            ctx.count("matrices_after_simulation_checks")
+
+
 def run(ctx):
     pts_n = 3 if ctx.quick() else 6
     for spec in all_orders_case(ctx):
@@ -304,6 +349,7 @@ def run(ctx):
         check_spec(ctx, spec, gen_points(ctx.rng, pts_n))
         if i % 5 == 0:
             check_missing_param(ctx, spec, ctx.rng)
+    matrices_after_simulations(ctx)
 
 
 def replay(ctx, obj):
